@@ -279,9 +279,11 @@ class HttpParser:
                 raw = memoryview(b'')
             # Mark request as complete if headers received and no incoming
             # body indication received.
+            # An explicit zero content-length is also self-delimiting,
+            # bytes following such a message are not part of it.
             elif self.state == httpParserStates.HEADERS_COMPLETE and \
                     not (self._content_expected or self._is_chunked_encoded) and \
-                    raw == b'':
+                    (raw == b'' or self.has_header(b'content-length')):
                 self.state = httpParserStates.COMPLETE
         self.buffer = None if raw == b'' else raw
 
